@@ -379,3 +379,14 @@ func (c *Ctx) alwaysFreshPtr(f *ssa.Function, depth int) bool {
 	})
 	return good && n > 0
 }
+
+// factZero: the facts establish v == 0 for a non-negative quantity (a length / count), however the
+// source spells it: v == 0, v <= 0, v < 1.
+func factZero(fs []fact, pv func(ssa.Value) bool) bool {
+	return factCmp(fs, token.EQL, pv, isConstIntV(0)) || factCmp(fs, token.LEQ, pv, isConstIntV(0)) || factCmp(fs, token.LSS, pv, isConstIntV(1))
+}
+
+// factPositive: the facts establish v > 0: v > 0, v >= 1, v != 0 (for a non-negative quantity).
+func factPositive(fs []fact, pv func(ssa.Value) bool) bool {
+	return factCmp(fs, token.GTR, pv, isConstIntV(0)) || factCmp(fs, token.GEQ, pv, isConstIntV(1)) || factCmp(fs, token.NEQ, pv, isConstIntV(0))
+}
